@@ -859,7 +859,7 @@ def bounded_families(ctx):
     jobs = [(fam, cls, P, limit) for fam, cls, P in full]
     with multiprocessing.Pool(min(16, multiprocessing.cpu_count())) as pool:
         results = list(pool.imap_unordered(_work, jobs, chunksize=8))
-    results.sort(key=lambda r: (r[0], r[1], repr(sorted(r[2].items()))))
+    results.sort(key=lambda r: (r[0], r[1], r[4], repr(sorted(r[2].items()))))      # smallest instance reported first
     per = {}
     for fam, cls, P, bad, nvars in results:
         ctx.case((fam, cls, sorted(P.items())), nontrivial=nvars > 0)
